@@ -423,7 +423,9 @@ def cache_history(job):
     plan = []
     if rng.random() < 0.3:
         pa = rng.choice(['a1', 'a2'])
-        plan = [('tx', hid[hist[pa][1].txid]), ('utxos', pa), ('tx', hid[hist[pa][0].txid]), ('utxos', pa)]
+        plan = rng.choice([[('tx', hid[hist[pa][1].txid]), ('utxos', pa), ('tx', hid[hist[pa][0].txid]), ('utxos', pa)],
+                           [('tx', hid[hist[pa][1].txid]), ('utxos', pa), ('utxos', pa), ('txs', pa)],
+                           [('tx', hid[hist[pa][1].txid]), ('balance', pa), ('txs', pa), ('utxos', pa)]])
     for step in range(nops):
         prov = rng.choice(['ok', 'ok', 'fail'])
         forced = plan[step] if step < len(plan) else None
@@ -447,7 +449,7 @@ def cache_history(job):
                 else:
                     ev['ret'] = list(next((kk for kk, t in allt.items() if t.raw_hex() == r), ('corrupt', 0)))
             elif op == 'txs':
-                a = rng.choice(['a1', 'a2', 'a2'])
+                a = forced[1] if forced else rng.choice(['a1', 'a2', 'a2'])
                 ev['a'] = a
                 ev['full'] = [list(hid[t.txid]) for t in hist[a]]
                 d[0] = 'gettransactions(%s) prov=%s' % (a, prov)
@@ -470,7 +472,7 @@ def cache_history(job):
                 else:
                     ev['ret'] = [list(hid.get(u['txid'], ('corrupt', n))) + [u['output_n'], u['value']] for n, u in enumerate(r)]
             elif op == 'balance':
-                al = rng.choice([['a1'], ['a2'], ['a1', 'a2'], ['a2', 'a1']])
+                al = [forced[1]] if forced else rng.choice([['a1'], ['a2'], ['a1', 'a2'], ['a2', 'a1']])
                 ev['as'] = al
                 ev['val'] = sum(btruth[a] for a in al)
                 d[0] = 'getbalance(%s) prov=%s' % (al, prov)
